@@ -1,4 +1,4 @@
 SPECIFICATION Spec
-CONSTANTS MaxTx=5 MaxId=7 Variant="zeroOnly"
+CONSTANTS MaxTx=5 MaxId=7 Variant="snapAhead"
 INVARIANTS OneChain AckMeansStored AckMeansRestorable SnapshotOnChain
 CHECK_DEADLOCK FALSE
